@@ -141,3 +141,22 @@ reg("C12", "proof", ["contracts.covariance:Covariance"],
          "The exactness obligations of C01-C08 (distinct symbols per axis) carry the rest.",
     extra_assumptions=["rotations: l <= 2 (3 in the thorough tier for scalars); general rotations follow from the generators by the group law, not checked as such",
                        "symbolic Boys function"])
+
+reg("C16", "other", ["contracts.deriv:GeneralKernel", "contracts.deriv:EvalBlocks", "contracts.overlap:NormPrim", "contracts.overlap:OverlapBlock",
+    "contracts.diffop:KineticBlock", "contracts.diffop:MomentBlock", "contracts.overlap:AssignNormCont", "contracts.assembly:OneIndex",
+    "contracts.assembly:TwoSymm", "contracts.density:DensityFromOrbs", "contracts.density:KineticDensity", "contracts.numeric:Quadrature"],
+    ["lemma over the contracts of evaluate_basis / evaluate_deriv_basis / density (C05, C06) and overlap / moment / kinetic integrals (C01, C07, C02)"],
+    note="deductive part: both halves of the library are proved against specification functions built from the SAME primitive (S0), the same "
+         "normalisation (the shell's norm_prim_cart, proved equal to (int g^2)^(-1/2), and norm_cont) and the same component order, by independent "
+         "routes (pointwise derivative vs closed-form Gaussian integral); the integral of the product of the pointwise specs IS the integral spec "
+         "(Gaussian moment formula, trusted). The statement itself ('integrating numerically reproduces ...') is then run literally as a BOUNDED "
+         "stand-in on the float code (uniform-grid trapezoid, exponents 0.3..3).",
+    extra_assumptions=["numerical quadrature is a bounded stand-in (seeded random bases), never counted as proved"])
+reg("C17", "other", ["contracts.overlap:OverlapBlock", "contracts.diffop:KineticBlock", "contracts.coulomb:OneElecKernel", "contracts.coulomb:TwoElecKernel",
+    "contracts.numeric:GramBounds"],
+    ["corollary of C01-C04 (the arrays are Gram matrices of the basis functions under positive (semi-)definite forms)"],
+    note="in real arithmetic the bounds are mathematical consequences of the exactness contracts C01-C04 (re-discharged here at the quick scale): the "
+         "arrays are Gram matrices. No further code obligation exists. The property's own content is 'up to rounding', which no deductive verifier "
+         "available here can reason about: it is covered by a BOUNDED stand-in on the float code (eigenvalue / Schwarz checks on seeded random bases, "
+         "including nearly dependent ones).",
+    extra_assumptions=["rounding behaviour: bounded stand-in only"])
